@@ -10,6 +10,7 @@ import itertools
 import numpy as np
 
 from mc.engine import Clause, Res
+from mc import layouts as _layouts
 
 from ibldsp import utils
 
@@ -166,10 +167,17 @@ def check_keep(case):
     ta = base_train(n, 5 + k)
     pairs = [(37.3 + k, 12.5), (-80.0, -140.2 - k), (100.0, 3.3), (0.0, 60.0)]
     fcns = []
+    held = []
     for drift, offset in pairs:
-        tb = ta * (1 + drift * 1e-6) + offset
-        f, d = utils.sync_timestamps(ta, tb, linear=linear)
+        ta_i = ta.copy()
+        tb_i = ta * (1 + drift * 1e-6) + offset
+        f, d = utils.sync_timestamps(ta_i, tb_i, linear=linear)
         fcns.append(f)
+        held.append((ta_i, tb_i))
+    # the caller goes on using its own arrays: converts the times in place, clears the other one
+    for (ta_i, tb_i), f in zip(held, fcns):
+        ta_i[:] = np.asarray(f(ta_i), dtype=float)
+        tb_i[:] = 0
     v = []
     for (drift, offset), f in zip(pairs, fcns):
         err = np.max(np.abs(np.asarray(f(ta[5:-5]), dtype=float) - (ta[5:-5] * (1 + drift * 1e-6) + offset)))
@@ -194,5 +202,6 @@ CHECK = {
         Clause("missing<=2", "every placement of 2 missing events on one side x {0,1} on the other", cases=cases_two, check=check_two, setup=_setup),
         Clause("kept-maps", "maps returned by earlier calls stay valid after later calls", cases=cases_keep, check=check_keep, setup=_setup),
         Clause("long-trains", "300 events over > 2000 s at +-100 ppm: placements of one missing event per side on a stride", cases=cases_long, check=check_long, setup=_setup),
+        _layouts.make_clause(__import__("checks._layout_specs", fromlist=["x"]).c19()),
     ],
 }
